@@ -280,6 +280,58 @@ theorem decodeTextML_encode_records (text : String) (cats : List (List Event)) (
   rw [loopFields_eq_loop _ _ h]
   exact decode_encode cats hne choices header
 
+/-! ## fractions of a second: 1 … 6 digits, each at its own decimal place -/
+
+/-- the value of a digit string read from the given decimal place downwards: first digit × `scale`, second × `scale/10`, … -/
+def fracVal : List Char → Nat → Nat
+  | [], _ => 0
+  | c :: cs, scale => digitVal c * scale + fracVal cs (scale / 10)
+
+theorem takeFrac_digits (fuel scale acc : Nat) (ds rest : List Char) (hl : ds.length ≤ fuel)
+    (hd : ∀ c ∈ ds, isDigit c = true) (hr : ds.length = fuel ∨ ∀ c, rest.head? = some c → isDigit c = false) :
+    takeFrac fuel scale acc (ds ++ rest) = (acc + fracVal ds scale, rest) := by
+  induction ds generalizing fuel scale acc with
+  | nil =>
+    cases fuel with
+    | zero => simp [takeFrac, fracVal]
+    | succ f =>
+      cases rest with
+      | nil => simp [takeFrac, fracVal]
+      | cons c cs =>
+        have : isDigit c = false := by
+          rcases hr with h | h
+          · simp at h
+          · exact h c rfl
+        simp [takeFrac, fracVal, this]
+  | cons d ds ih =>
+    cases fuel with
+    | zero => simp at hl
+    | succ f =>
+      have hdd : isDigit d = true := hd d List.mem_cons_self
+      simp only [List.cons_append, takeFrac, hdd, if_true, fracVal]
+      rw [ih f (scale / 10) (acc + digitVal d * scale) (by simpa using hl)
+        (fun c hc => hd c (List.mem_cons_of_mem _ hc)) (by
+          rcases hr with h | h
+          · left; simpa using h
+          · right; exact h)]
+      simp [Nat.add_assoc]
+
+/-- **`%f` scales a short fraction correctly**: `k ≤ 6` digits after the point are read as microseconds with the first digit
+    at the 100 000 place — `.5` is 500 000 µs, `.05` 50 000 µs, `.12345` 123 450 µs — whatever follows is left over -/
+theorem takeFrac_scales (ds rest : List Char) (hl : ds.length ≤ 6) (hd : ∀ c ∈ ds, isDigit c = true)
+    (hr : ds.length = 6 ∨ ∀ c, rest.head? = some c → isDigit c = false) :
+    takeFrac 6 100000 0 (ds ++ rest) = (fracVal ds 100000, rest) := by
+  simpa using takeFrac_digits 6 100000 0 ds rest hl hd hr
+
+-- both layouts of `read_catalog_line`, fractions of every length 1 … 6 (and none), unpadded clock fields: epoch milliseconds
+example : (["1992-06-28T11:57:34.5", "1992-06-28T11:57:34.05", "1992-06-28T11:57:34.123", "1992-06-28T11:57:34.1234",
+    "1992-06-28T11:57:34.12345", "1992-06-28T11:57:34.123456", "1992-06-28T11:57:34", "1992-6-28T11:57:34.5",
+    "1992-06-28T11:57:34.000999", "1992-06-28T11:57:34.9999"].map (fun t => parseTime t.toList))
+    = [some 709732654500, some 709732654050, some 709732654123, some 709732654123, some 709732654123, some 709732654123,
+       some 709732654000, some 709732654500, some 709732654000, some 709732654999] := by decide +kernel
+example : fracVal "5".toList 100000 = 500000 ∧ fracVal "05".toList 100000 = 50000 ∧ fracVal "12345".toList 100000 = 123450 := by
+  decide +kernel
+
 /-! ## which calls of the public loaders reach the decoder -/
 
 theorem ses_reaches_decoder_iff (type format : String) :
